@@ -603,9 +603,9 @@ class Renderer:
         all1 = all(x[0] == 1 for x in rows)
         all0 = all(x[2] == 0 for x in rows)
         if W is None:
-            w0 = 0 if (all1 and r.random() < 0.3) else r.choice([1, 1, 1, 2])
+            w0 = 0 if (all1 and r.random() < 0.7) else r.choice([1, 1, 1, 2])     # /W [0 n m]: legal when every entry is type 1
             w1 = r.randrange(w1, 5)
-            w2 = 0 if (all0 and r.random() < 0.3) else r.randrange(w2, 5)
+            w2 = 0 if (all0 and r.random() < 0.5) else r.randrange(w2, 5)
             W = (w0, w1, w2)
         else:
             W = (W[0] if (W[0] > 0 or all1) else 1, max(W[1], w1), 0 if (W[2] == 0 and all0) else max(W[2], w2))
@@ -860,6 +860,8 @@ def gen_history(rng, nrev, nobj=(3, 8), maxnum=12, kinds=('table', 'stream', 'hy
         o = dict(shuffle=True, holder_pos=rng.choice([None, 'after', 'before']),
                  index=True if i > 0 else rng.random() < 0.5, xfilt=rng.choice(['none', 'flate', 'up']),
                  selfent=rng.random() < 0.7, hybrid_dup=rng.random() < 0.15, hybrid_junk=rng.random() < 0.3)
+        if xkind == 'stream' and o['index'] and rng.random() < 0.5:
+            o['obj0'] = False            # with /Index the section need not list object 0: all entries can be type 1
         if opts:
             o.update(opts)
         xid = None
